@@ -224,6 +224,10 @@ impl<const N: usize> AEADCipherCodec<N> {
         if matches!(session.mode, Mode::Client) {
             header.copy_to_slice(session.identity.request_salt.as_mut().unwrap());
             trace!("[tcp] get request header salt {}", Base64::encode_string(session.identity.request_salt.as_ref().unwrap()));
+            // the response must answer *this* request: it echoes the salt the request was sent with
+            if session.identity.request_salt.as_ref() != Some(&session.identity.salt) {
+                bail!("response is not bound to this request, request salt mismatch")
+            }
         };
         let length = header.get_u16() as usize;
         if _src.remaining() >= length + tag_size {
